@@ -243,3 +243,51 @@ func H_IdentifierRuns() {
 		"the backtick spelling of the same text is the same single identifier")
 	zv.Reach("one-identifier")
 }
+
+// H_KeywordAfterName: every keyword written directly after a name of one or
+// two characters (letter, wide letter, letter+digit) and optionally followed by
+// one more character is cut out exactly as the reference segmenter says.
+func H_KeywordAfterName() {
+	k := keywords[zv.Choose(len(keywords))]
+	var src []rune
+	switch zv.Choose(4) {
+	case 0:
+		src = []rune{'a'}
+	case 1:
+		src = []rune{'中'}
+	case 2:
+		src = []rune{'a', '1'}
+	default:
+		src = []rune{'中', 'a'}
+	}
+	src = append(src, []rune(k.text)...)
+	switch zv.Choose(4) {
+	case 1:
+		src = append(src, '1')
+	case 2:
+		src = append(src, '中')
+	case 3:
+		src = append(src, ' ', 'a')
+	}
+	got, failed, p := lexAll(src)
+	want, ok := refTokens(src)
+	zv.Assert(p == nil, "keyword after name: no panic")
+	if !ok {
+		zv.Assert(failed, "keyword after name: rejected as the segmenter rejects it")
+		return
+	}
+	zv.Assert(!failed, "keyword after name: accepted: "+string(src))
+	same := len(got) == len(want)
+	if same {
+		for j := range got {
+			if got[j].typ != want[j].typ || got[j].start != want[j].start || got[j].end != want[j].end {
+				same = false
+			}
+			if want[j].typ == zh.TypeIdentifier && got[j].lit != want[j].lit {
+				same = false
+			}
+		}
+	}
+	zv.Assert(same, "a keyword directly after a name is cut out greedily (longest keyword at the first position where one begins): "+string(src))
+	zv.Reach("cut")
+}
